@@ -240,6 +240,71 @@ def py_rewrites(rel: str, text: str, mode: str) -> List[Any]:
                     h.body = self._block(h.body)
             return node
 
+    class Commute(ast.NodeTransformer):
+        """operands of `*`, `&`, `^` swapped when both are simple; of `+` / `|` when one of them is an integer literal"""
+        def visit_BinOp(self, n: ast.BinOp) -> ast.AST:
+            self.generic_visit(n)
+            if not (_simple(n.left) and _simple(n.right)):
+                return n
+            lit = lambda e: isinstance(e, ast.Constant) and isinstance(e.value, int) and not isinstance(e.value, bool)
+            if isinstance(n.op, (ast.Mult, ast.BitAnd, ast.BitXor)) or (isinstance(n.op, (ast.Add, ast.BitOr)) and (lit(n.left) or lit(n.right))):
+                if isinstance(n.op, ast.Mult) and (isinstance(n.left, (ast.List, ast.Tuple, ast.JoinedStr)) or isinstance(n.right, (ast.List, ast.Tuple, ast.JoinedStr))
+                                                   or (isinstance(n.left, ast.Constant) and isinstance(n.left.value, (str, bytes)))
+                                                   or (isinstance(n.right, ast.Constant) and isinstance(n.right.value, (str, bytes)))):
+                    return n
+                return ast.BinOp(left=n.right, op=n.op, right=n.left)
+            return n
+
+    class Reorder(ast.NodeTransformer):
+        """adjacent call-free simple statements with disjoint reads / writes swapped (every other eligible pair)"""
+        @staticmethod
+        def rw(st: ast.stmt) -> Any:
+            if not isinstance(st, (ast.Assign, ast.AugAssign, ast.AnnAssign)) or any(isinstance(x, (ast.Call, ast.Await, ast.Yield, ast.NamedExpr, ast.Subscript)) for x in ast.walk(st)):
+                return None
+            tg = st.targets if isinstance(st, ast.Assign) else [st.target]
+            w = set()
+            for t in tg:
+                for x in ast.walk(t):
+                    if isinstance(x, (ast.Name, ast.Attribute)) and isinstance(getattr(x, 'ctx', None), ast.Store):
+                        w.add(ast.unparse(x))
+            val = st.value
+            if val is None:
+                return None
+            r = {ast.unparse(x) for x in ast.walk(val) if isinstance(x, (ast.Name, ast.Attribute))}
+            if isinstance(st, ast.AugAssign):
+                r |= w
+            # a write to x.y conflicts with any read/write of x or x.y...: compare by prefix
+            return w, r
+
+        @staticmethod
+        def clash(a: Any, b: Any) -> bool:
+            (wa, ra), (wb, rb) = a, b
+            def hit(ws: Any, xs: Any) -> bool:
+                return any(x == w_ or x.startswith(w_ + '.') or w_.startswith(x + '.') for w_ in ws for x in xs)
+            return hit(wa, rb | wb) or hit(wb, ra | wa)
+
+        def block(self, stmts: List[ast.stmt]) -> List[ast.stmt]:
+            out = [self.visit(x) for x in stmts]
+            i = 0
+            while i + 1 < len(out):
+                a, b = self.rw(out[i]), self.rw(out[i + 1])
+                if a is not None and b is not None and not self.clash(a, b):
+                    out[i], out[i + 1] = out[i + 1], out[i]
+                    i += 2
+                else:
+                    i += 1
+            return out
+
+        def generic_visit(self, node: ast.AST) -> ast.AST:
+            for f in ('body', 'orelse', 'finalbody'):
+                v = getattr(node, f, None)
+                if isinstance(v, list) and v and isinstance(v[0], ast.stmt):
+                    setattr(node, f, self.block(v))
+            if isinstance(node, ast.Try):
+                for h in node.handlers:
+                    h.body = self.block(h.body)
+            return node
+
     def visit(node: ast.AST, prefix: str) -> None:
         for ch in ast.iter_child_nodes(node):
             if isinstance(ch, ast.ClassDef):
@@ -249,7 +314,11 @@ def py_rewrites(rel: str, text: str, mode: str) -> List[Any]:
                 import copy
                 fn = copy.deepcopy(ch)
                 before = ast.dump(fn)
-                for md in (['flip', 'invert', 'name'] if mode == 'all' else [mode]):
+                for md in (['flip', 'invert', 'name', 'commute', 'reorder'] if mode == 'all' else [mode]):
+                    if md in ('commute', 'reorder'):
+                        tr2 = Commute() if md == 'commute' else Reorder()
+                        fn = tr2.visit(fn) if md == 'commute' else tr2.generic_visit(fn)
+                        continue
                     tr = {'flip': Flip, 'invert': Invert, 'name': NameCond}[md]()
                     fn = tr.generic_visit(fn) if md == 'name' else tr.visit(fn)
                 if mode == 'all':
@@ -309,6 +378,18 @@ def c_rewrites(rel: str, text: str, mode: str) -> List[Any]:
                 if mid.strip() != n['opcode']:
                     continue
                 edits.append((sn[0], sn[1], f'{text[sb[0]:sb[1]]} {_CFLIP[n["opcode"]]} {text[sa[0]:sa[1]]}'))
+            if mode == 'commute' and n.get('kind') == 'BinaryOperator' and n.get('opcode') in ('*', '&', '^', '|', '+') and len(n.get('inner', [])) == 2:
+                a, b = n['inner']
+                sa, sb, sn = cu._span(a), cu._span(b), cu._span(n)
+                if not (sa and sb and sn) or in_macro(n) or in_macro(a) or in_macro(b) or not pure(a) or not pure(b):
+                    continue
+                if text[sa[1]:sb[0]].strip() != n['opcode']:
+                    continue
+                # keep the parse: an operand that is itself an unparenthesised binary operation of lower / equal precedence gets parentheses
+                ta, tb = text[sa[0]:sa[1]], text[sb[0]:sb[1]]
+                pb = f'({tb})' if ln._c_needs_parens(b, n['opcode'], left=True) else tb
+                pa = f'({ta})' if ln._c_needs_parens(a, n['opcode'], left=False) else ta
+                edits.append((sn[0], sn[1], f'{pb} {n["opcode"]} {pa}'))
             if mode == 'invert' and n.get('kind') == 'IfStmt' and len(n.get('inner', [])) == 3 and not n.get('hasVar'):
                 c, t, e = n['inner']
                 sc, st, se = cu._span(c), cu._span(t), cu._span(e)
